@@ -1198,13 +1198,14 @@ class Interp:
                     return C(len(segs))
                 return ("len", ("iter", v))
             return ("len", ("iter", v))
-        if g.endswith("Option::<T>::and_then") and len(arg_nodes) == 2:
+        if g.endswith("Option::<T>::and_then") and len(arg_nodes) == 2 and not (core.strip(arg_nodes[0]).get("k") == "MethodCall" and core.strip(arg_nodes[0]).get("m") == "ok"):
+            # (an Option that is `result.ok()` keeps its Result variants in this model: left to the generic application)
             # `a.and_then(|x| f(x))`: `match a { Some(x) => f(x), None => None }`
             v = ev(0)
             f = ev(1)
 
             def hit(e2):
-                inner = v[2][0] if is_var(v, SOME) else payload(v, SOME, 0)
+                inner = v[2][0] if (is_var(v, SOME) or is_var(v, OK)) else payload(v, SOME, 0)
                 if f[0] == "closure":
                     return self.call_closure(f, [inner])
                 if f[0] == "fnref":
@@ -1212,10 +1213,12 @@ class Interp:
                 if f[0] == "ctor":
                     return var(f[1], inner)
                 return ("app", "callvalue", (f, inner))
-            if is_var(v, SOME):
+            if is_var(v, SOME) or is_var(v, OK):       # (`.ok()` leaves the Ok variant in place in this model)
                 return hit(env)
-            if is_var(v, NONE):
-                return v
+            if is_var(v, NONE) or is_var(v, ERR):
+                return var(NONE)
+            if not (isinstance(v, tuple) and v and v[0] in ("app", "fld", "in", "phi", "payload", "optmap", "try")):
+                return NotImplemented
             c_some = ("is", v, SOME)
             return self.branches([(c_some, hit), (("not", c_some), lambda e2: var(NONE))], env, core.loc(n))
         if re.search(r"Option::<T>::(or_else|unwrap_or_else|or)$", g) and len(arg_nodes) == 2:
